@@ -56,6 +56,21 @@ class Check:
         self.t0 = time.time()
         self.selfcheck: dict = {}
         self.deferred: list = []
+        self._terms = None
+
+    @property
+    def terms(self):
+        """E6 summaries (value-flow normal form), shared by the rules of one run."""
+        if self._terms is None:
+            from .terms import TermEval
+            self._terms = TermEval(self.ix)
+        return self._terms
+
+    def summary(self, cls_or_func, meth=None):
+        f = self.ix.get_method(cls_or_func, meth) if meth is not None else \
+            (self.ix.get_function(cls_or_func) if isinstance(cls_or_func, str) else cls_or_func)
+        self.consult(f)
+        return self.terms.summary(f)
 
     # ---- recording
     def ok(self, rule, key, detail="", where="", nontrivial=True):
